@@ -75,6 +75,11 @@ class Rotation:
         if hasattr(angles, "to_numpy"):
             angles = angles.to_numpy()
         arr = np.asarray(angles, dtype=object)
+        from . import npx as _npx
+        if _npx.STATE.get("real_rotation") and not any(is_sym(v) for v in arr.ravel()):
+            # all-concrete job (file round trips with concrete cells): the real scipy class, real floats
+            from scipy.spatial.transform import Rotation as _SR
+            return _SR.from_euler(seq, np.asarray(arr, dtype=float), degrees=degrees)
         if len(seq) == 1:
             single = arr.ndim == 0
             arr = arr.reshape(-1, 1)
